@@ -285,6 +285,16 @@ func histInput(f *run.Failure, sites ...string) (Input, bool) {
 	return in, false
 }
 
+// hasPair reports whether s contains a supplementary character (a surrogate pair in UTF-16).
+func hasPair(s string) bool {
+	for _, r := range s {
+		if r > 0xFFFF {
+			return true
+		}
+	}
+	return false
+}
+
 func asciiOnly(s string) bool {
 	for i := 0; i < len(s); i++ {
 		if s[i] >= 0x80 {
@@ -811,12 +821,63 @@ func registerMatchers() {
 			x := float64(*st.Lim)
 			lim = &x
 		}
-		sep := refre.Separator{Re: obj.Re, WholePairs: true}
+		// (the same engine also matches code points: see c10.code-point-matching)
+		sep := refre.Separator{Re: refre.Compile(obj.Re.Pat, in.F, refre.Options{CodePoints: true}), WholePairs: true}
 		if st.Op == "splitStr" {
 			sep = refre.Separator{Str: refre.Units(st.Q), WholePairs: true}
 		}
 		r, err := refre.Split(refre.Units(st.S), sep, lim)
 		return err == nil && showCaps(r) == f.Actual
+	})
+	// --- the engine walks code points, not code units: a class, '.', \W \D \S consume a whole surrogate pair
+	run.RegisterMatcher("c10.code-point-matching", func(f *run.Failure) bool {
+		in, ok := input(f)
+		if !ok {
+			return false
+		}
+		if (in.Op == "match" || in.Op == "class") && isExecSite(f.Site) && len(in.Subjects) == 1 && hasPair(in.Subjects[0]) {
+			// deviation model on one exec from lastIndex 0
+			pat := parseFor(in)
+			if pat == nil {
+				return false
+			}
+			obj := refre.NewObject(refre.Compile(pat, in.F, refre.Options{CodePoints: true}))
+			r, err := obj.Exec(refre.Units(in.Subjects[0]))
+			return err == nil && !strings.HasSuffix(f.Site, ":lastIndex") && (showExec(r) == f.Actual || spanOf(showExec(r)) == f.Actual || indexOf(showExec(r)) == f.Actual)
+		}
+		if in.Op != "hist" || !strings.HasPrefix(f.Site, "hist:") {
+			return false
+		}
+		obj, st, ok := histState(in)
+		if !ok || !hasPair(st.S) || strings.HasSuffix(st.Op, "Str") || strings.HasSuffix(st.Op, "StrFn") {
+			return false
+		}
+		cp := *obj
+		cp.Re = refre.Compile(obj.Re.Pat, in.F, refre.Options{CodePoints: true})
+		su := refre.Units(st.S)
+		switch {
+		case (st.Op == "exec" || st.Op == "test") && !strings.HasSuffix(f.Site, ":lastIndex"):
+			r, err := cp.Exec(su)
+			if err != nil {
+				return false
+			}
+			if st.Op == "test" {
+				return fmt.Sprint(r != nil) == f.Actual
+			}
+			return showExec(r) == f.Actual
+		case st.Op == "search" && f.Site == "hist:search":
+			r, err := cp.Search(su)
+			return err == nil && fmt.Sprint(r) == f.Actual
+		case st.Op == "split":
+			return false // c10.split-whole-pairs models both halves
+		}
+		// match / replace / function replacers and the lastIndex they leave: region (the failing call is a
+		// call on a subject with a surrogate pair and the code-point model disagrees with the specification
+		// model on the first match of that call)
+		r1, e1 := cp.Exec(su)
+		o2 := *obj
+		r2, e2 := o2.Exec(su)
+		return e1 == nil && e2 == nil && showExec(r1) != showExec(r2)
 	})
 	run.RegisterMatcher("c10.split-findall", func(f *run.Failure) bool {
 		in, ok := histInput(f, "hist:split")
